@@ -67,7 +67,7 @@ class C01(Check):
                    "never-written elements are not asserted"]
 
     def generate(self, tier, rng):
-        n = 160 if tier == "quick" else 4000
+        n = int(os.environ.get("VERIF_N", 320)) if tier == "quick" else 4000
         maxp = 4 if tier == "quick" else 8
         for i in range(n):
             nprocs = rng.choice([1, 2, 2, 3, 4] if maxp == 4 else [1, 2, 3, 4, 5, 6, 8])
